@@ -1,6 +1,7 @@
 // Package dh: shared driver of the DHCP checks C11 and C12.
 //
-// A case is one whole history:
+// A case is one whole history (hist: every frame through ONE receive buffer, as a server's read loop
+// delivers them; histf: a fresh buffer per frame; stale: hist on a handler that found an old lease file):
 //
 //	hist MODE HOSTIP HOSTMAC ROUTERIP ROUTERMAC HOMEIP HOMEBITS NFIP NFBITS DNS op op ...
 //	op : D|R|X|L,chaddr,xid,ciaddr,cid,req,sid,b,src,prl    (X decline, L release)
@@ -343,6 +344,11 @@ type Server struct {
 	H    *dhcp4_spoofer.Handler
 	Conn *lib.RecConn
 	file string
+	// Shared, when non-nil, is THE receive buffer of this server: every frame of the history is copied
+	// into it at offset 0 and parsed as Shared[:n], as a read loop does (examples/dhcpd). It is never
+	// cleared between frames, so anything the library retained as a sub-slice of an earlier frame now
+	// shows the bytes of the current one.
+	Shared []byte
 }
 
 func init() {
@@ -409,7 +415,11 @@ func (sv *Server) Step(tok string) (string, *Reply) {
 	}
 	m := parseMsg(f)
 	sv.Conn.Take()
-	frame, err := sv.S.Parse(m.Frame())
+	pkt := m.Frame() // a fresh 1514-byte buffer
+	if sv.Shared != nil {
+		pkt = sv.Shared[:copy(sv.Shared, pkt)]
+	}
+	frame, err := sv.S.Parse(pkt)
 	if err != nil {
 		return "parse-error", nil
 	}
@@ -431,10 +441,18 @@ func (sv *Server) Step(tok string) (string, *Reply) {
 
 func (sv *Server) Table() string { return showTable(sv.H.VerifLeases()) }
 
-// RunHist is the implementation runner of a "hist" case.
-func RunHist(a []string) string {
+// RunHist is the implementation runner of a "hist" case: all frames through one shared receive buffer.
+func RunHist(a []string) string { return runHist(a, true) }
+
+// RunHistFresh is the runner of a "histf" case: the same, every frame in a buffer of its own.
+func RunHistFresh(a []string) string { return runHist(a, false) }
+
+func runHist(a []string, shared bool) string {
 	c, ops := ParseCfg(a)
 	sv := NewServer(c)
+	if shared {
+		sv.Shared = make([]byte, packet.EthMaxSize)
+	}
 	defer sv.Close()
 	out := make([]string, 0, len(ops))
 	for _, o := range ops {
@@ -454,6 +472,7 @@ func RunStale(a []string) string {
 		panic("bad stale bits")
 	}
 	sv := NewStaleServer(c, hb, nb)
+	sv.Shared = make([]byte, packet.EthMaxSize)
 	defer sv.Close()
 	ops := rest[2:]
 	out := make([]string, 0, len(ops))
